@@ -21,7 +21,7 @@ func (t *TextTemplater) Apply(payload []byte, metadata map[string]string, variab
 	const op = "scenario/TextTemplater.Apply"
 
 	strBuilder := &strings.Builder{}
-	tmpl, err := t.getTemplate(string(payload), scenarioName, stepName, "payload")
+	tmpl, err := t.getTemplate(string(payload), scenarioName, stepName, "payload", "")
 	if err != nil {
 		return nil, fmt.Errorf("%s, template.getTemplate payload, %w", op, err)
 	}
@@ -33,7 +33,7 @@ func (t *TextTemplater) Apply(payload []byte, metadata map[string]string, variab
 	strBuilder.Reset()
 
 	for k, v := range metadata {
-		tmpl, err = t.getTemplate(v, scenarioName, stepName, k)
+		tmpl, err = t.getTemplate(v, scenarioName, stepName, "metadata", k)
 		if err != nil {
 			return nil, fmt.Errorf("%s, template.Execute Header %s, %w", op, k, err)
 		}
@@ -47,16 +47,22 @@ func (t *TextTemplater) Apply(payload []byte, metadata map[string]string, variab
 	return []byte(payloadStr), nil
 }
 
-func (t *TextTemplater) getTemplate(tmplBody, scenarioName, stepName, key string) (*template.Template, error) {
-	urlKey := fmt.Sprintf("%s_%s_%s", scenarioName, stepName, key)
-	tmpl, ok := t.templatesCache.Load(urlKey)
+// templateKey identifies a cached template: joining the names into one string would let
+// different steps (or a metadata key called "payload") share a cache entry.
+type templateKey struct {
+	scenario, step, part, key string
+}
+
+func (t *TextTemplater) getTemplate(tmplBody, scenarioName, stepName, part, key string) (*template.Template, error) {
+	cacheKey := templateKey{scenario: scenarioName, step: stepName, part: part, key: key}
+	tmpl, ok := t.templatesCache.Load(cacheKey)
 	if !ok {
 		var err error
-		tmpl, err = template.New(urlKey).Funcs(templater.GetFuncs()).Parse(tmplBody)
+		tmpl, err = template.New(fmt.Sprintf("%s_%s_%s%s", scenarioName, stepName, part, key)).Funcs(templater.GetFuncs()).Parse(tmplBody)
 		if err != nil {
 			return nil, fmt.Errorf("scenario/TextTemplater.Apply, template.New, %w", err)
 		}
-		t.templatesCache.Store(urlKey, tmpl)
+		t.templatesCache.Store(cacheKey, tmpl)
 	}
 	return tmpl.(*template.Template), nil
 }
